@@ -287,8 +287,9 @@ class Stream(StreamIterator[_RecvType], Generic[_SendType, _RecvType]):
                 self._end_done = True
                 return
         else:
-            await self._stream.end()
-            self._end_done = True
+            with self._wrapper:
+                await self._stream.end()
+                self._end_done = True
 
     def _raise_for_status(self, headers_map: Dict[str, str]) -> None:
         status = headers_map[':status']
